@@ -7,6 +7,7 @@ import (
 	"regexp/syntax"
 	"strings"
 
+	"github.com/AdguardTeam/urlfilter/filterutil"
 	"github.com/AdguardTeam/urlfilter/rules"
 )
 
@@ -191,6 +192,34 @@ func init() {
 			for _, l := range regexPool {
 				emit("regex\t" + hx(l+"$domain=x.org") + "\t" + encList([]string{"http://example.org/ads1/banner1.png", "https://example.org/track.js"}))
 			}
+			// pairs of DIFFERENT regex rules whose whole texts have the same 32-bit hash (djb2-xor collides on two-character
+			// infixes for any prefix), parsed one after the other in one process
+			for _, shape := range [][2]string{{`/adserv\/banner_`, `\.gif/`}, {`/track`, `[0-9]+\.js/`}, {`/^https?:\/\/x`, `\.example\.org\//`}} {
+				seen := map[uint32]string{}
+				found := 0
+				al := "abcdefghijklmnopqrstuvwxyz0123456789"
+				for a := 0; a < len(al) && found < 4; a++ {
+					for b := 0; b < len(al) && found < 4; b++ {
+						in := string(al[a]) + string(al[b])
+						t := shape[0] + in + shape[1]
+						h := filterutil.FastHash(t)
+						if o, ok := seen[h]; ok {
+							found++
+							u := func(x string) string {
+								body := strings.NewReplacer(`\/`, "/", `\.`, ".", "[0-9]+", "7", "^https?", "https", "/^", "").Replace(strings.Trim(x, "/"))
+								if strings.HasPrefix(body, "https:") {
+									return body
+								}
+								return "http://h.org/" + body
+							}
+							for _, pr := range [][2]string{{o, t}, {t, o}} {
+								emit("regexpair\t" + hx(pr[0]) + "\t" + hx(pr[1]) + "\t" + encList([]string{u(pr[1]), u(pr[0])}))
+							}
+						}
+						seen[h] = t
+					}
+				}
+			}
 			for i := 0; i < nm; i++ {
 				p := genPattern(g)
 				if g.Chance(1, 4) {
@@ -230,6 +259,13 @@ func init() {
 		},
 		Run: func(line string, st *Stats) (string, string, bool) {
 			f := strings.Split(line, "\t")
+			if f[0] == "regexpair" {
+				// another rule is parsed first in the same process: whatever it leaves behind must not reach this rule
+				_, _ = rules.NewNetworkRule(unhx(f[1]), 1)
+				f = []string{"regex", f[2], f[3]}
+				line = strings.Join(f, "\t")
+				st.Inc("parsed_after_a_rule_with_colliding_text_hash")
+			}
 			text := unhx(f[1])
 			subjects := decList(f[2])
 			rule, err := rules.NewNetworkRule(text, 1)
